@@ -1,8 +1,15 @@
 #!/bin/bash
-# build the fact extractor (offline, nightly) and warm the dependency target directory
+# Run once after a fresh restore, offline: build the fact extractor (nightly rustc_private driver, no dependencies) and
+# warm the dependency part of the extraction target directory. Nothing here is needed for correctness: ./check builds the
+# driver and extracts on demand; this only moves the one-time cost out of the first check.
 set -e
 cd "$(dirname "$0")"
 export CARGO_NET_OFFLINE=true
-(cd driver && cargo build --offline --release)
-python3 -m sa.check C12 >/dev/null 2>&1 || true
+(cd driver && cargo build --offline --release 2>&1 | tail -2)
+python3 - <<'PY'
+import sys; sys.path.insert(0, ".")
+from sa import check
+d, key, fresh = check.ensure_facts()
+print("facts", key, "extracted" if fresh else "cached")
+PY
 echo "setup ok"
